@@ -520,7 +520,7 @@ def pair_near(r, p):
 def cert_items(ctx):
     r = ctx.rng
     items = []
-    scale = ctx.n(1, 6)
+    scale = ctx.n(1, 4)
     # euler family: every selector and epoch
     for b in (False, True):
         for sel in range(1, 7):
@@ -607,7 +607,7 @@ def certify(ctx, items, tag):
         for name, kind, st in lem:
             lemmas.append((st, "c09_cert."))
             owner.append((i, name, kind, st))
-    res = core.coq_lemmas(ctx.work + "/" + tag, PRE_R, lemmas, shard=ctx.n(14, 24), tag=tag) if lemmas else []
+    res = core.coq_lemmas(ctx.work + "/" + tag, PRE_R, lemmas, shard=10, tag=tag) if lemmas else []
     failed = [j for j, (ok, _) in enumerate(res) if not ok]
     refuted = {}
     if failed:
